@@ -1,5 +1,6 @@
 """Colang 2.x program grammar: seeded generation of small programs for the interpreter checks,
 plus corpora harvested from the repository (library .co files, programs embedded in tests)."""
+from harness import REPO
 import glob
 import os
 import random
@@ -175,9 +176,9 @@ def alphabet_of(src):
 
 # ---------------------------------------------------------------- repository corpora
 def library_files():
-    pats = ["/repo/nemoguardrails/colang/v2_x/library/*.co", "/repo/nemoguardrails/library/**/*.co",
-            "/repo/examples/v2_x/**/*.co", "/repo/tests/test_configs/**/*.co", "/repo/examples/**/*.co",
-            "/repo/tests/v2_x/**/*.co", "/repo/docs/**/*.co"]
+    pats = [REPO + "/nemoguardrails/colang/v2_x/library/*.co", REPO + "/nemoguardrails/library/**/*.co",
+            REPO + "/examples/v2_x/**/*.co", REPO + "/tests/test_configs/**/*.co", REPO + "/examples/**/*.co",
+            REPO + "/tests/v2_x/**/*.co", REPO + "/docs/**/*.co"]
     seen = []
     for p in pats:
         for f in sorted(glob.glob(p, recursive=True)):
@@ -189,7 +190,7 @@ def library_files():
 def embedded_test_programs():
     """Triple-quoted Colang 2 programs inside tests/v2_x/*.py (content = \"\"\" ... \"\"\")."""
     out = []
-    for f in sorted(glob.glob("/repo/tests/v2_x/*.py")):
+    for f in sorted(glob.glob(REPO + "/tests/v2_x/*.py")):
         txt = open(f, encoding="utf-8").read()
         for m in re.finditer(r'"""(.*?)"""', txt, re.S):
             body = m.group(1)
